@@ -83,10 +83,11 @@ MC_HEAP_KNOBS = [dict(module="HeapLife", name="heap_knob_" + k, expect="violate"
 
 
 def run_c20(ctx, C):
-    codec_common(ctx, C, [GEN_HEAP], [], mcs=[MC_HEAP] + MC_HEAP_KNOBS, traces=())
+    codec_common(ctx, C, [GEN_HEAP, GEN_EAP_UNKNOWN], [], mcs=[MC_HEAP] + MC_HEAP_KNOBS, traces=())
 
 
-GEN_SK = dict(module="Gen_SK", name="sk")
+GEN_SK = dict(module="Gen_SK", name="sk", constants=dict(OnlySeq=False))
+GEN_SK_SEQ = dict(module="Gen_SK", name="sk_seq", constants=dict(OnlySeq=True), trace=False)
 MC_SK = dict(module="SKChannel", name="skchannel",
              constants=dict(Msgs='{"m1", "m2"}', MaxOps=lambda ctx: 5 if ctx.thorough else 4, ResetBeforeMac=True, ResetPerPrfBlock=True, MacFirst=True, PeerKeys=True),
              invariants=("AsFresh", "AcceptOnlySent", "RoundTrip", "MacBeforeDecrypt", "RetypeIsPlain", "NoReflection"), view="View",
@@ -122,7 +123,7 @@ GEN_HIST_LONG = dict(module="Gen_Histories", name="histories_long", constants=di
 
 
 def run_c17(ctx, C):
-    codec_common(ctx, C, [GEN_HIST, GEN_HIST_LONG], [],
+    codec_common(ctx, C, [GEN_HIST, GEN_HIST_LONG, GEN_SK_SEQ], [],
                  mcs=[MC_SK, mc_sk_knob("ResetBeforeMac"), mc_sk_knob("ResetPerPrfBlock")], traces=())
 
 
@@ -169,7 +170,9 @@ def run_c11(ctx, C):
     codec_common(ctx, C, [GEN_TRANSFORMS], [], traces=())
 
 
-GEN_EAP = dict(module="Gen_Eap", name="eap")
+EAP_KINDS = '{"eap", "code", "set", "sender", "receiver", "prf", "unknown"}'
+GEN_EAP = dict(module="Gen_Eap", name="eap", constants=dict(Kinds=EAP_KINDS))
+GEN_EAP_UNKNOWN = dict(module="Gen_Eap", name="eap_unknown", constants=dict(Kinds='{"unknown"}'))
 DRV_EAP = dict(name="randeap", driver="randeap", n_quick=600, n_thorough=20000)
 MC_AKA = dict(module="AkaSession", name="akasession", constants=dict(MacOverWire=True, SameKey=True), invariants=("ReceiverAgrees", "Sensitive"),
               what="EAP-AKA' packet from sender (any attribute order / reserved octets) through an adversary to the receiver")
@@ -215,6 +218,7 @@ def run_c06(ctx, C):
 
 def run_c04(ctx, C):
     codec_common(ctx, C, [GEN_CURSOR, GEN_SK, GEN_CIPHER], [DRV_BYTES], traces=("Trace_Codec",))
+    C.stage_apalache(ctx)
 
 
 PLANS = {
